@@ -128,6 +128,7 @@ class Runner:
         self.tags = set(base_tags)
         self.hist = [hist_key]
         self.failures_seen = 0
+        self.seen_kinds = set()           # kinds of the failures evaluated so far in this history
         self.since_repair = False
         self.aborted = False
         if small_limit:
@@ -155,7 +156,8 @@ class Runner:
                 self.rec.lines.pop()
                 self.fail("chk-edit-after-failure", "edit `%s` after a failed evaluation raised %s: %s"
                           % (stmt[:80], type(e).__name__, str(e)[:200]),
-                          "try:\n    %s\nexcept Exception:\n    sys.exit(1)\nsys.exit(0)" % stmt.replace("\n", "\n    "))
+                          "try:\n    %s\nexcept Exception:\n    sys.exit(1)\nsys.exit(0)" % stmt.replace("\n", "\n    "),
+                          {"seen-exc-" + k for k in self.seen_kinds})
             else:
                 self.res.notes.append("precondition: edit %r raised %s with no failure in the history (other "
                                       "property) - case dropped" % (stmt[:80], type(e).__name__))
@@ -348,6 +350,7 @@ class Runner:
                 ftags = {"exc-" + e.kind, "pkind-" + sp.nodes[e.origin].kind}
                 self.check_error(q, r, e, ftags)
                 self.failures_seen += 1
+                self.seen_kinds.add(e.kind)
                 post_held, post_deep, _ = observe(sp, rec)
                 cut = getattr(e, "open_ended", None)
                 chain_nodes = e.chain if cut is None else e.chain[:cut]
@@ -426,6 +429,23 @@ class Runner:
                 self.fail("chk-original", "get_error() is %r, not the exception object raised in %s"
                           % (err, sp.label(e.origin)),
                           "sys.exit(1 if mx.get_error().args != (%d,) else 0)" % e.origin, ftags)
+
+    def final_probe(self, order, style="call"):
+        """After the history: every space still accepts a new cells, and every element evaluates as defined."""
+        if not self.failures_seen or self.aborted:
+            return
+        self.hist.append(("probe-edits",))
+        for h in self.spec.homes():
+            self.edit('%s.new_cells("probe", formula="lambda: 0")' % h)
+            if self.aborted:
+                return
+        if not self.fresh_ok("after-edit"):
+            return
+        for q in order:
+            self.query(q, style)
+            if self.aborted:
+                return
+        self.end_of_step()
 
     def end_of_step(self):
         s = sanity()
@@ -606,6 +626,7 @@ def run_case(res, c):
             queries()
             if R.aborted:
                 return
+        R.final_probe(order, c["qstyle"])
     finally:
         R.close()
 
@@ -661,6 +682,7 @@ def case_h(res, item):
                 if R.aborted:
                     return
             R.end_of_step()
+        R.final_probe(up)
     finally:
         R.close()
 
